@@ -206,6 +206,10 @@ func (m *MsgSendToExternal) ValidateBasic() (err error) {
 	if !m.BridgeFee.IsValid() || !m.BridgeFee.IsPositive() {
 		return sdkerrors.ErrInvalidRequest.Wrap("invalid bridge fee")
 	}
+	// the handler escrows amount + bridge fee as one coin: the sum must fit the 256-bit sdkmath.Int
+	if _, err = m.Amount.Amount.SafeAdd(m.BridgeFee.Amount); err != nil {
+		return sdkerrors.ErrInvalidRequest.Wrap("amount + bridge fee overflow")
+	}
 	return nil
 }
 
